@@ -16,6 +16,7 @@ import (
 	"path/filepath"
 	"sort"
 	"sync"
+	"sync/atomic"
 	"time"
 
 	"github.com/massnetorg/mass-core/poc"
@@ -573,7 +574,10 @@ func run(sc vh.Scenario, dir string, rec *vh.Rec) {
 				r, _ := call(func() error { return sk.Stop() })
 				done <- r
 			}()
-			// let the plotter run freely to its exit
+			// the stop takes effect when the quit channel is closed: only then let the plotter run freely to its exit
+			for k := 0; k < 2000 && !capacity.VerifQuitClosed(sk); k++ {
+				time.Sleep(time.Millisecond)
+			}
 			passed := []string{}
 			res := ""
 			deadline := time.After(callTimeout + 2*time.Second)
@@ -643,6 +647,72 @@ func run(sc vh.Scenario, dir string, rec *vh.Rec) {
 			if !ok {
 				ev["gate"] = "stuck"
 			}
+		case "Burst":
+			// replay of the KeeperImpl wedge schedule: more Plot requests for a registered space than the request
+			// channel holds, issued while another space is being plotted
+			n := st.Int("n")
+			snap0 := capacity.VerifSnap(sk, false)
+			ev["chancap"], ev["n"] = snap0.ChanCap, n
+			call(func() error { return sk.ActOnWorkSpace(d.sids["w1"], engine.Plot) })
+			if r, _ := call(func() error { return sk.Start() }); r != "ok" {
+				ev["res"] = "start-failed"
+				break
+			}
+			reached := false
+			for k := 0; k < 8 && !reached; k++ {
+				p, ok := d.waitPark()
+				if !ok {
+					break
+				}
+				if p.point == "inplot" {
+					reached = true
+					break
+				}
+				d.g.grant <- struct{}{}
+			}
+			if !reached {
+				ev["res"] = "no-plot"
+				break
+			}
+			var returned int32
+			var wgb sync.WaitGroup
+			for k := 0; k < n; k++ {
+				wgb.Add(1)
+				go func() {
+					defer wgb.Done()
+					if sk.ActOnWorkSpace(d.sids["w2"], engine.Plot) == nil {
+						atomic.AddInt32(&returned, 1)
+					}
+				}()
+			}
+			allBack := make(chan struct{})
+			go func() { wgb.Wait(); close(allBack) }()
+			select {
+			case <-allBack:
+			case <-time.After(3 * time.Second):
+			}
+			ev["returned"] = int(atomic.LoadInt32(&returned))
+			// the plot ends; the plotter needs the state lock for step 3
+			d.cur.finishCh <- "complete"
+			d.g.free = true
+			go func() {
+				for {
+					select {
+					case <-d.g.parked:
+						d.g.grant <- struct{}{}
+					case <-d.reg.inplot:
+					}
+				}
+			}()
+			time.Sleep(300 * time.Millisecond)
+			q, _ := call(func() error { _, err := sk.WorkSpaceInfos(engine.SFAll); return err })
+			ev["after_plot_queries"] = q
+			sres, _ := call(func() error { return sk.Stop() })
+			ev["after_plot_stop"] = sres
+			ev["res"] = "ok"
+			rec.Emit(ev)
+			rec.Note = "burst done"
+			rec.DoneAndExit(9)
 		default:
 			ev["res"] = "unknown-action"
 		}
@@ -665,11 +735,17 @@ func run(sc vh.Scenario, dir string, rec *vh.Rec) {
 	// wind down so that the child process can continue with the next scenario
 	if sk.Started() {
 		go sk.Stop()
+		for k := 0; k < 2000 && !capacity.VerifQuitClosed(sk); k++ {
+			time.Sleep(time.Millisecond)
+		}
 		t := time.After(3 * time.Second)
 	down:
 		for d.at != "exited" {
 			if d.at == "inplot" {
-				d.cur.finishCh <- "aborted"
+				select {
+				case d.cur.finishCh <- "aborted":
+				default:
+				}
 			}
 			select {
 			case d.g.grant <- struct{}{}:
